@@ -1,6 +1,7 @@
 package exec
 
 import (
+	"net"
 	"fmt"
 	"go/types"
 	"strings"
@@ -595,6 +596,22 @@ func (m *Machine) intercept(fn *ssa.Function) (func([]Value) Value, bool) {
 				}
 			}
 			return v
+		}, true
+	case "(net.IP).String":
+		// textual form of an IP address whose bytes are concrete (the standard library goes through net/netip with
+		// slice-to-array-pointer conversions the interpreter does not implement): computed natively
+		return func(args []Value) Value {
+			r, n := m.bytesOf(args[0])
+			k := m.concreteInt(n, "net.IP length")
+			b := make([]byte, k)
+			for i := range b {
+				t := m.ropeAt(r, m.i64(i))
+				if !t.IsConst() {
+					panic(unsupported("(net.IP).String of a symbolic address"))
+				}
+				b[i] = byte(t.Val)
+			}
+			return Str{m.litRope([]byte(net.IP(b).String()))}
 		}, true
 	case "internal/bytealg.IndexByteString", "internal/bytealg.IndexByte":
 		// first index of byte c in s (length concrete; contents may be symbolic: one fork per position)
